@@ -83,7 +83,7 @@ def run(tier, seed):
             raise common.ToolError("node_admit replayed nothing")
     cov = {"states": len(hs) + r2.distinct, "transitions": evals, "traces_validated_against_impl": evals, "samples": samples[:3],
            "evaluations": evals, "distinct_nontrivial": len(hs) + len(pool),
-           "rule": "handshake: endpoint kind x claimed key {expected peer, attacker, honest non-member} x session {this, another} x chain x signer; pool: all "
+           "rule": "handshake: endpoint kind x claimed key {the endpoint itself, expected peer, attacker, honest non-member} x session {this, another} x chain x signer; pool: all "
                    f"sequences of {maxops} insert/remove over one configured and two non-configured keys with quota 1; + 8-task concurrent stress per round",
            "node_level": node,
            "node_level_rule": "Pool.tla sequences of 5 connect/hang-up operations (sampled to 1500 per endpoint in the quick tier) replayed on a real running node "
